@@ -236,6 +236,12 @@ def run_pair(res, rng, tier, null_name, alt_name):
             cval = round(math.exp(rng.uniform(math.log(0.3), math.log(5.0))), 4)
             null.set_param_rule(cpar, is_constant=True, value=cval)
             detail["null_constant"] = [cpar, cval]
+        if rng.random() < 0.3:
+            # the nested hypothesis holds one branch at exactly zero length (value 0 is in bounds); the richer model
+            # frees it and must start from that same point
+            ze = rng.choice(M.edges(tree))["name"]
+            null.set_param_rule("length", edge=ze, is_constant=True, value=0.0)
+            detail["null_zero_length_edge"] = ze
     except Exception as e:  # noqa: BLE001
         res.evals += 1
         res.witness(exc_mechanism(f"C16/{label}/build", e), **detail)
@@ -280,8 +286,10 @@ def run_pair(res, rng, tier, null_name, alt_name):
         res.count("nested-init:alt-" + used)
     if "null_constant" in detail:
         res.count("nested-init:null-with-constant-rate-param")
+    if "null_zero_length_edge" in detail:
+        res.count("nested-init:null-with-zero-length-edge")
     if not close(alt_lnL, null_lnL, 1e-8):
-        res.witness(f"C16/nested-init/lnL-differs/{label}" + ("/null-has-constant-param" if "null_constant" in detail else "") + ("/alt-used-before" if used else ""), null_lnL=null_lnL, alt_lnL=alt_lnL, **detail)
+        res.witness(f"C16/nested-init/lnL-differs/{label}" + ("/null-has-constant-param" if "null_constant" in detail else "") + ("/null-has-zero-length-edge" if "null_zero_length_edge" in detail else "") + ("/alt-used-before" if used else ""), null_lnL=null_lnL, alt_lnL=alt_lnL, **detail)
         return
     final = optimise_and_decide(res, alt, rng, tier, "alt-fit", detail, sig_base)
     if final is not None:
@@ -490,7 +498,7 @@ def run_case(case):
 
 
 def required(counters, tier):
-    need = ["start-on-upper-bound:ended-on-bound", "nested-init-checked", "nested-init:null-with-constant-rate-param", "nested-by-scope", "trace-checked", "trace:optimiser-last-not-best", "optimiser:local", "bounds-checked", "LR-checked", "app-hypothesis-runs", "app:statistics-after-continuation-checked", "nested-init:alt-own-starting-values", "budget:1", "budget:200"]
+    need = ["start-on-upper-bound:ended-on-bound", "nested-init-checked", "nested-init:null-with-constant-rate-param", "nested-by-scope", "trace-checked", "trace:optimiser-last-not-best", "optimiser:local", "bounds-checked", "LR-checked", "app-hypothesis-runs", "app:statistics-after-continuation-checked", "nested-init:alt-own-starting-values", "nested-init:null-with-zero-length-edge", "budget:1", "budget:200"]
     if not (counters.get("optimiser:global") or counters.get("optimiser:global+local")):
         need.append("optimiser:global")
     return [n for n in need if not counters.get(n)]
